@@ -2,6 +2,7 @@ package verifh
 
 import (
 	"github.com/cockroachdb/errors"
+	"github.com/cockroachdb/errors/errbase"
 	"verifh/gen"
 	"verifh/sym"
 	"verifh/wire"
@@ -32,7 +33,16 @@ func H_C02_IsTransfer(v *sym.V) {
 	b := build(v, g, "e")
 	e := b.Err
 	var r error
-	switch v.Choice("ref", 6) {
+	switch v.Choice("ref", 7) {
+	case 6:
+		// the root of the last branch, through every nested multi-cause node
+		r = errors.UnwrapAll(e)
+		if len(errbase.UnwrapMulti(r)) == 0 {
+			return // same as the root reference
+		}
+		for m := errbase.UnwrapMulti(r); len(m) > 0; m = errbase.UnwrapMulti(r) {
+			r = errors.UnwrapAll(m[len(m)-1])
+		}
 	case 0:
 		r = e
 	case 1:
